@@ -177,7 +177,11 @@ def main():
     for f in sorted(anchors):
         if a.only and a.only not in f:
             continue
-        ids = [i for i in anchors[f] if i not in skip]
+        related = [("packages/push/src/instruction/", ["C01", "C02", "C05"]), ("packages/push/src/push_vm/stack.rs", ["C04", "C02", "C01"]), ("packages/push/src/push_vm/", ["C01", "C02", "C03"]),
+                   ("packages/push/src/genome/", ["C05", "C11", "C12"]), ("packages/ec-core/src/operator/selector/", ["C06"]), ("packages/ec-core/src/weighted/", ["C13", "C06"]),
+                   ("packages/ec-core/src/distributions/", ["C18", "C16"]), ("packages/ec-linear/src/", ["C10", "C11", "C12"]), ("packages/ec-core/src/operator/composable/", ["C14"])]
+        extra = [i for pre, l in related if f.startswith(pre) for i in l]
+        ids = [i for i in dict.fromkeys(anchors[f] + extra) if i not in skip]
         if not ids or not os.path.exists("/repo/" + f):
             continue
         ids.sort(key=lambda i: cost.get(i, 1))
@@ -189,10 +193,10 @@ def main():
             print(w[0], w[1] + 1, w[2], "|", w[3].strip(), "=>", w[4].strip())
         return
     for w in range(a.workers):
-        if not os.path.exists(f"{ROOT}/w{w}/verif/harness/target/release/vcheck"):
-            os.makedirs(ROOT, exist_ok=True)
-            code, out = sh(f"/verif/tools/scratch_copy.sh {ROOT}/w{w}")
-            print(out.strip().split("\n")[-1], flush=True)
+        # always refresh the copy of /verif (incremental; build output is kept)
+        os.makedirs(ROOT, exist_ok=True)
+        code, out = sh(f"/verif/tools/scratch_copy.sh {ROOT}/w{w}")
+        print(out.strip().split("\n")[-1], flush=True)
     # build the copies (in parallel)
     procs = [subprocess.Popen(f"cd {ROOT}/w{w}/verif && VERIF_REPO={ROOT}/w{w}/repo ./setup.sh > {ROOT}/w{w}/setup.log 2>&1", shell=True) for w in range(a.workers)]
     for p in procs:
